@@ -1,5 +1,25 @@
 #![allow(unused_macros)]
 
+// Verification probes: expand to nothing unless built with `--cfg num_bigint_verif`.
+#[cfg(num_bigint_verif)]
+macro_rules! verif_probe {
+    (tick) => {
+        crate::verif_probe::tick()
+    };
+    (work $n:expr) => {
+        crate::verif_probe::add_work($n as u64)
+    };
+    ($p:ident) => {
+        crate::verif_probe::hit(crate::verif_probe::Probe::$p)
+    };
+}
+#[cfg(not(num_bigint_verif))]
+macro_rules! verif_probe {
+    (tick) => {};
+    (work $n:expr) => {};
+    ($p:ident) => {};
+}
+
 macro_rules! cfg_32 {
     ($($any:tt)+) => {
         #[cfg(not(target_pointer_width = "64"))] $($any)+
